@@ -7,6 +7,10 @@ Open Scope Z_scope.
      mode 0: durationForAttempt(n) on a fresh value          (VerifBackoffForAttempt)
      mode 1: n calls of duration() on a fresh value          (VerifBackoffSeq)
      mode 2: k calls of duration(), reset(), n calls         (VerifBackoffSeqReset)
+     mode 3: StreamManager scenario: n outages on one manager (defaults, jitter); rs = the
+             observed number of failed attempts of each outage; output = for each outage
+             the upper bounds (ns) of the waits after its failed attempts 0, 1, ...
+             (the no-jitter value: C19_jitter_range; restart per outage: C19_outages_restart)
    rs: one oracle value per observed call (1 for mode 0, n otherwise).  The global
    math/rand source cannot be controlled by the harness, so for a jittered call the
    harness passes what it observed (ns / 10^6) as the oracle value: the model then
@@ -38,19 +42,18 @@ Definition dec_input (x : sx) : option c19_input :=
   | SL [SZ mode; nj; SZ ba; SZ f; SZ c; SZ k; SZ n; rs] =>
       do j <- as_b nj;
       do l <- as_list as_z rs;
-      if (0 <=? ba) && (0 <=? f) && (0 <=? k) && (0 <=? n) && (0 <=? mode) && (mode <=? 2)
+      if (0 <=? ba) && (0 <=? f) && (0 <=? k) && (0 <=? n) && (0 <=? mode) && (mode <=? 3)
          && (Z.of_nat (length l) =? (if mode =? 0 then 1 else n))
       then Some (mode, j, ba, f, c, k, n, l) else None
   | _ => None
   end.
-
-Definition zeros (n : Z) : list Z := repeat 0 (Z.to_nat n).
 
 Definition run_typed (inp : c19_input) : sx :=
   let '(mode, nj, ba, f, c, k, n, rs) := inp in
   let b := fresh nj ba f c in
   if mode =? 0 then outcome_sx (snd (dur_for_attempt b n (hd 0 rs)))
   else if mode =? 1 then seq_sx (snd (dur_seq b rs))
+  else if mode =? 3 then SL (map seq_sx (outages (fresh true ba f c) rs))
   else
     let '(b1, os1) := dur_seq b (zeros k) in
     if has_panic os1 then SL [SL [SZ 1]]
